@@ -12,7 +12,7 @@
    output = L [A outcome; B wire; L waits; A dt]
      outcome 0 returned | 1 TimeoutError | 2 ConnectionError | 3 ValueError | 4 RuntimeError | 9 does not terminate (fuel)
      wait    = L [A write?; tmo requested]                                                                       *)
-From EN Require Import Lib.Bytes Lib.Sx IO.Retry IO.SendAll IO.SendMsg IO.TlsWrite IO.Payload IO.Budget Run.IOCommon Gen.ParamsC04.
+From EN Require Import Lib.Bytes Lib.Sx IO.Retry IO.SendAll IO.SendMsg IO.TlsWrite IO.Payload IO.Budget Conc.FlowControl IO.AsyncAdapter Run.IOCommon Gen.ParamsC04.
 Open Scope Z_scope.
 
 
@@ -75,5 +75,31 @@ Definition run (i : sx) : sx :=
       do script <- as_list_of as_sockans script; do sels <- as_list_of as_selans sels;
       run_client_send_case sendmsg_drops_empty_views hs iov chunks T ri lk script sels
   | L [A 9; _; _; _; _; _; _; _; L [labels; A kind]] => run_lock_history labels kind
+  | L [A 10; _; _; _; _; _; _; _; L sends] =>
+      (* asyncio adapter, several sends one after the other (IO/AsyncAdapter.v over Conc/FlowControl.v):
+         send = L [A 0; L [B data]; A k] send_all | L [A 1; L chunks; A k] send_all_from_iterable; the kernel takes k bytes
+         at once; afterwards the buffer is flushed.  output: what was handed to the transport = what the peer reads *)
+      do sends <- map_opt (fun x => match x with
+                                    | L [A kind; chunks; A k] =>
+                                        match as_list_of as_chunk chunks with
+                                        | Some cs => Some (kind, cs, Z.to_nat k)
+                                        | None => None
+                                        end
+                                    | _ => None
+                                    end) sends;
+      let labels := map (fun '(i, (kind, cs, k)) => if kind =? 0 then CSend i (concat cs) k else CSendIter i cs k)
+                        (combine (seq 0 (length sends)) sends) in
+      match cad_run (cad_init (mkCfg 0 0 true) (length sends)) labels with
+      | Some c =>
+          let c' := match k_buf c with
+                    | [] => Some c
+                    | b => cad_step c (COther (AReady (length b)))
+                    end in
+          match c' with
+          | Some c2 => L [A 0; B (k_wire c2); of_bool (bytes_eqb (k_wire c2) (k_handed c2)); A 0]
+          | None => bad_input
+          end
+      | None => bad_input
+      end
   | _ => run_transport i
   end.
